@@ -9,6 +9,7 @@ Reading of the property used here (see NOTES/C15.md):
   the three-way correspondence check (rustrtc / this model / webrtc-rs `rtp`+`rtcp`).
 -/
 import RtcModel.Lemmas.C15Rtp
+import RtcModel.Lemmas.C15Ext
 
 namespace RtcModel.Theorems.C15
 open RtcModel.C15 RtcModel.Generated
@@ -111,5 +112,99 @@ theorem rtx_unwrap_none_iff (p : Packet) (s : UInt32) (t : UInt8) :
   | [] => simp
   | [_] => simp
   | _ :: _ :: _ => simp
+
+/-! ### header extensions (RFC 8285) -/
+
+/-- **set_extension_total**: `set_extension` has no panic outcome on any header, id and data (an
+overrunning element in a received block is an error since the `fix:` commit; the model keeps the
+three-outcome type so that a regression shows up as a disagreement). -/
+theorem set_extension_total (h : Header) (id : UInt8) (data : Bytes) : setExtension h id data ≠ .panic := by
+  unfold setExtension
+  by_cases h1 : id.toNat = 0 ∨ id.toNat ≥ c15ExtIdLimit
+  · rw [if_pos h1]; simp
+  · rw [if_neg h1]
+    by_cases h2 : data.length > c15ExtMaxData ∨ data.isEmpty = true
+    · rw [if_pos h2]; simp
+    · rw [if_neg h2]
+      simp only
+      by_cases h3 : (h.ext.getD ⟨UInt16.ofNat c15OneByteProfile, []⟩).profile.toNat ≠ c15OneByteProfile
+      · rw [if_pos h3]; simp
+      · rw [if_neg h3]
+        cases rebuild id.toNat (oneByteElem id data) (h.ext.getD ⟨UInt16.ofNat c15OneByteProfile, []⟩).data with
+        | none => simp
+        | some r => simp
+
+/-- read `id` back from a header whose extension block is the rebuilt one -/
+private theorem get_of_set {h h' : Header} {id : UInt8} {data : Bytes}
+    (hs : setExtension h id data = .ok h') (id' : UInt8) :
+    getExtension h' id' = if id' = id then some data else getExtension h id' := by
+  obtain ⟨w, hprof, out, found, hr, rfl⟩ := setExtension_ok_inv hs
+  have hp : (h.ext.getD ⟨UInt16.ofNat c15OneByteProfile, []⟩).profile.toNat = c15OneByteProfile := by
+    cases he : h.ext with
+    | none => simp [c15OneByteProfile_val]
+    | some e => simpa using hprof e he
+  have hold : getExtension h id' = getOne id'.toNat (h.ext.getD ⟨UInt16.ofNat c15OneByteProfile, []⟩).data := by
+    cases he : h.ext with
+    | none => simp [getExtension, he, getOne_nil]
+    | some e => simp [getExtension, he, hprof e he]
+  generalize hnd : ((if found = true then out else out ++ oneByteElem' id.toNat data) ++
+    List.replicate (pad4 (if found = true then out else out ++ oneByteElem' id.toNat data).length) 0) = nd
+  have hnew : getExtension { h with ext := some ⟨(h.ext.getD ⟨UInt16.ofNat c15OneByteProfile, []⟩).profile, nd⟩ } id'
+      = getOne id'.toNat nd := by
+    simp only [getExtension, hp, if_true]
+  rw [hnew, ← hnd]
+  by_cases hid : id' = id
+  · subst hid
+    rw [if_pos rfl]
+    cases found with
+    | true =>
+      simp only [if_true]
+      rw [getOne_rebuild_self _ _ w _ _ _ _ _ rfl hr]; rfl
+    | false =>
+      simp only [Bool.false_eq_true, if_false, List.append_assoc]
+      rw [getOne_rebuild_self _ _ w _ _ _ _ _ rfl hr]
+      simp only [Bool.false_eq_true, if_false, oneByteElem', List.cons_append]
+      exact getOne_elem_self w _
+  · rw [if_neg hid, hold]
+    have hne : id'.toNat ≠ id.toNat := fun hh => hid (UInt8.toNat_inj.mp hh)
+    cases found with
+    | true =>
+      simp only [if_true]
+      rw [getOne_rebuild_other _ _ _ w hne _ _ _ _ _ rfl hr, getOne_zeros]
+      cases getOne id'.toNat _ <;> rfl
+    | false =>
+      simp only [Bool.false_eq_true, if_false, List.append_assoc]
+      rw [getOne_rebuild_other _ _ _ w hne _ _ _ _ _ rfl hr]
+      simp only [oneByteElem', List.cons_append]
+      rw [getOne_elem_other w hne, getOne_zeros]
+      cases getOne id'.toNat _ <;> rfl
+
+/-- **ext_get_set**: whenever `set_extension(id, data)` succeeds, `get_extension(id)` returns `data`
+— for every prior header, including received blocks with padding, repeated ids, an id-15 stop marker
+or a target element that itself overran the block. -/
+theorem ext_get_set (h h' : Header) (id : UInt8) (data : Bytes) (hs : setExtension h id data = .ok h') :
+    getExtension h' id = some data := by
+  rw [get_of_set hs id, if_pos rfl]
+
+/-- **ext_set_frame**: a successful `set_extension(id, …)` leaves what every other id reads unchanged
+(all 255 other ids, not only 1..14) and touches no other header field. -/
+theorem ext_set_frame (h h' : Header) (id id' : UInt8) (data : Bytes) (hs : setExtension h id data = .ok h')
+    (hne : id' ≠ id) :
+    getExtension h' id' = getExtension h id' ∧ h' = { h with ext := h'.ext } := by
+  refine ⟨by rw [get_of_set hs id', if_neg hne], ?_⟩
+  obtain ⟨_, _, _, _, _, rfl⟩ := setExtension_ok_inv hs
+  rfl
+
+/-- the rebuilt block is 32-bit aligned, so the header stays serialisable -/
+theorem ext_set_aligned (h h' : Header) (id : UInt8) (data : Bytes) (hs : setExtension h id data = .ok h') :
+    ∃ e, h'.ext = some e ∧ e.data.length % 4 = 0 := by
+  obtain ⟨_, _, out, found, _, rfl⟩ := setExtension_ok_inv hs
+  refine ⟨_, rfl, ?_⟩
+  simp only [List.length_append, List.length_replicate]
+  exact pad4_aligned _
+
+example : setExtension (Header.new 96 1 2 3) 5 [0xAA, 0xBB] =
+    .ok { Header.new 96 1 2 3 with ext := some ⟨0xBEDE, [0x51, 0xAA, 0xBB, 0]⟩ } := by
+  simp [setExtension, Header.new, rebuild_nil, oneByteElem, pad4, u8]
 
 end RtcModel.Theorems.C15
